@@ -903,7 +903,7 @@ func keysOf(m map[string]bool) []string {
 func ruleDispatch(c *Ctx) *RuleResult {
 	r := &RuleResult{Doc: "tokenize, folded for every first rune of the domain and (for ASCII first runes) every distinguishing second rune, does what the lexical grammar says: identifier start [A-Za-z_], ten single-character tokens, numbers, bracket/flatten/filter, the two-character operators decided by the second rune, quoted forms ending in their token or an error (an unclosed one only in an error), whitespace {space,tab,LF,CR} skipped without effect, EOF finishes with tEOF, every other rune is an unknown-character error; nothing panics", Floor: 128}
 	lf := c.newLexFolder()
-	dom := runeDomain(c.Tier)
+	dom := runeDomain(c.lexTier())
 	seconds := secondRunes()
 	type cls struct {
 		n    int
@@ -969,7 +969,8 @@ func ruleDispatch(c *Ctx) *RuleResult {
 func ruleScanLoops(c *Ctx) *RuleResult {
 	r := &RuleResult{Doc: "after an identifier start the scanner continues exactly on [A-Za-z0-9_], after a digit or '-' exactly on [0-9], for every following rune of the domain; the continue test never panics (mask index in range) and depends on nothing but the rune", Floor: 2}
 	lf := c.newLexFolder()
-	dom := runeDomain(c.Tier)
+	dom := runeDomain(c.lexTier())
+	quickDom := runeDomain("quick")
 	pos := c.pos(c.A.Tokenize.Pos())
 	for _, sc := range []struct {
 		name   string
@@ -978,8 +979,12 @@ func ruleScanLoops(c *Ctx) *RuleResult {
 		r.Instances++
 		var bad, gaps []string
 		n := 0
-		for _, x := range sc.firsts {
-			for _, y := range dom {
+		for fi, x := range sc.firsts {
+			d := dom
+			if fi > 0 {
+				d = quickDom // the whole domain once per scanner; further first runes on the quick domain
+			}
+			for _, y := range d {
 				n++
 				os := lf.fold([]int64{x, y})
 				al, rq := lexSpec(x, y)
@@ -1029,4 +1034,14 @@ func (lf *lexFolder) evalE(f *folder, v ssa.Value) (fval, bool) {
 		return fval{}, false
 	}
 	return f.eval(v)
+}
+
+// lexTier: the rune domain of the thorough tier is folded once, on the default
+// build configuration; the other configurations (which do not change the
+// lexer's files) fold the quick domain.
+func (c *Ctx) lexTier() string {
+	if c.Tier == "thorough" && (c.Tags != "" || c.Arch != "") {
+		return "quick"
+	}
+	return c.Tier
 }
